@@ -395,7 +395,7 @@ func c11ConcRound(t *testing.T, r *vrep.Report, round int) {
 }
 
 func TestVerifC11Concurrent(t *testing.T) {
-	r := vrep.New("C11", "c11-conc", "6 goroutines over 3 clients (separate region caches, atomic mode) do get/put/delete/CAS with unique values on 3-4 keys while a chaos goroutine splits/merges regions and moves leaders (paced by completed operations); call/return order from one atomic counter; per-key history (+ the final store content as a last read) checked for linearizability with porcupine, errors = maybe happened, checker time-out = inconclusive; distinct = distinct per-key histories (sequence of worker/op/outcome in call order)")
+	r := vrep.New("C11", "c11-conc", "6 goroutines over 3 clients (separate region caches, atomic mode) do get/put/delete/CAS with unique values on 3-4 keys while a chaos goroutine splits/merges regions and moves leaders (paced by completed operations); 35% of the calls run under a context that is cancelled right after the call or ends (cancel / deadline) at the n-th RPC of that call; call/return order from one atomic counter; per-key history (+ the final store content as a last read) checked for linearizability with porcupine, errors = maybe happened, checker time-out = inconclusive; distinct = distinct per-key histories (sequence of worker/op/outcome in call order)")
 	defer r.Finish(t)
 	c11Probe()
 	rounds := vrep.Pick(150, 3000)
@@ -406,4 +406,7 @@ func TestVerifC11Concurrent(t *testing.T) {
 	r.Floor("conc_ops", rounds*100)
 	r.Floor("conc_topology_changes", rounds*5)
 	r.Floor("conc_region_errors", rounds)
+	r.Floor("conc_ctx_cancel-at_ended_during_call", rounds*5)
+	r.Floor("conc_ctx_deadline-at_ended_during_call", rounds*5)
+	r.Floor("conc_ctx_cancel-after_calls", rounds*3)
 }
